@@ -72,6 +72,16 @@ var props = map[string]propSpec{
 		Rule: "rapid draws (i) literals from the documented grammar: sign, digit runs of 1..450 digits (thorough: occasionally 32k-70k digits or leading-zero runs of that length), ties and near-ties after the 34th/35th digit, the 38/39-digit accumulation cut-off, '.' at every position, '_' between digits, exponents with sign/leading zeros/separators steered to the subnormal, flush and overflow windows and to huge magnitudes, NaN/Inf/Infinity in random case; each is parsed under all 6 DefaultRoundingMode values by Parse and UnmarshalText (MustParse and fmt.Sscan under the default mode) and compared with an independent numeral evaluator + RoundX, incl. the ErrRange/Inf rule; (ii) invalid strings: random bytes, random strings over the literal alphabet, a fixed list of near-misses, and 1-2 byte mutations of valid literals, classified by an independent recogniser: must give ErrSyntax (MustParse panics). Non-trivial = literal with more than 35 significant digits, or in a clamp window, or with separators, or invalid; distinct = distinct string.",
 		Assumptions: append([]string{"signed NaN and doubled underscores are not settled by the statement and are excluded from both the valid and the invalid set (counted as unclaimed-form)", "below 1e-6177 both a signed zero and the directed-mode rounding are accepted"}, commonAssumptions...),
 	},
+	"C06": {
+		QuickShards: 8, ThoroughShards: 16,
+		Rule: "rapid draws 128-bit patterns (uniform, structured finite with every coefficient length and trailing-zero run, values whose leading-digit exponent is around the -4/6 switch, zeros, specials); String, MarshalText, %v, Format/Append('g',-1), ('e',-1) and ('f',-1) are compared byte for byte with strings constructed from the decoded (digits, exponent) by the rule the statement gives, re-read by an independent numeral evaluator, and round-tripped through Parse, UnmarshalText and fmt.Sscan (Equal, same sign; class for NaN/Inf). 'f' at |exponent| >= 300 is sampled at 1/50. Non-trivial = at least two significant digits; distinct = distinct pattern.",
+		Assumptions: commonAssumptions,
+	},
+	"C07": {
+		QuickShards: 8, ThoroughShards: 16,
+		Rule: "rapid draws (finite Decimal, spec) with every subset of the flags + - # space 0 in random order, width absent/1..40, precision absent/0..40/'.', verbs eEfFgG; values are built to tie, nearly tie or carry exactly at the digit the spec selects (incl. the empty kept prefix), to sit at the %g switch-over, to be exact float64 images, zeros, or arbitrary. Checked: (1) fmt.Sprintf equals a reference port of fmt/strconv layout over the exact digits, (2) equals fmt's output for the float64 holding the same value where one exists, (3) Decimal.Append with nil / empty-with-capacity / non-empty buffers equals prefix+Sprintf and leaves the caller's bytes alone, (4) package Format/Append agree with the flag-less spec. A separate sub-check validates the reference port against the installed fmt on float64. Non-trivial = rounding drops a digit or a flag/width changes the output; distinct = distinct (bits, spec, buffer shape).",
+		Assumptions: append([]string{"the installed toolchain's fmt (go1.23) is the reference for layout, as the property states; the reference port is re-validated against it on every run"}, commonAssumptions...),
+	},
 	"C01": {
 		QuickShards: 8, ThoroughShards: 16,
 		Rule: "rapid draws operand pairs (independent; exponent gap -45..45; tie/near-tie constructor at the 34/35-digit boundary; near-cancellation across cohorts; swallowed operand up to gap 12287; zeros; overflow edge) and add/sub; every pair is evaluated under all 6 modes and under all 6 DefaultRoundingMode values against the exact integer sum rounded by ref.RoundX. Non-trivial = the exact sum is not representable (rounding decides) or the operands cancel exactly; distinct = distinct (x bits, y bits, op).",
